@@ -87,6 +87,9 @@ def gen_cases(rng, tier):
     # are not merged into one (evaluated at negative points too)
     texts += ["(x ** 2) ** (1/2)", "(x ^ 2) ^ (1/2)", "(x ** 2) ** (3/2)", "((x - y) ** 2) ** (1/2)", "(a.#q ** 2) ** (1/2) + 1", "(x ** 4) ** (1/2)",
               "(x ** 2) ** (1/2) - x", "2 * (y ^ 2) ^ (1/2) / 3"]
+    # multiplicity(p, n): the exponent of p in n, for negative n too (the sign carries no factor)
+    texts += ["multiplicity(2, -8)", "multiplicity(3, -9)", "2 ** multiplicity(2, -8) * 3", "multiplicity(2, 40)", "Multiplicity(5, 0 - 50) + 1",
+              "multiplicity(2, 7)", "multiplicity(3, 2)"]
     # sgn of an argument that is provably >= 0 (or <= 0) but may be ZERO: not folded to 1 (or -1)
     texts += ["sgn(x % 3)", "sgn(mod(x, 5))", "sgn(max(0, x - 5))", "sgn(-(x % 3))", "sgn((x % 3) * (y % 2))", "sgn(x % 3 + 1)", "sgn(max(0, x)) + 1"]
     # identifiers wrapped in underscores the way the parser's own placeholders (__lambda__, __in__) are: ordinary names, every
